@@ -314,7 +314,7 @@ pub fn execute(sc: &AsyncScenario, sh: &Shared) -> Value {
         }
     };
     for (li, lt) in sc.lifetimes.iter().enumerate() {
-        unsafe { libc::alarm(60) };
+        unsafe { libc::alarm(15) };
         let mut model: Vec<Vec<usize>> = vec![Vec::new(); NF];
         let mut inj = InjectorPP::new();
         for (oi, op) in lt.ops.iter().enumerate() {
